@@ -148,12 +148,16 @@ def real_commit_times(run, rng):
                                                          (rng.randint(0, 4102444800), rng.randint(0, 4102444800), rng.randint(0, 4102444800)), (1704067199, 1704067200, 1704067300)]):
             path = os.path.join(root, f"r{i}")
             gitfx.build_repo(path, [("commit", 1500000000), ("atag", "v1.0.0", tagts)])
-            env = dict(gitfx.GIT_ENV, GIT_AUTHOR_DATE=f"{author} +0000", GIT_COMMITTER_DATE=f"{committer} +0000")
+            env = dict(gitfx.GIT_ENV, GIT_AUTHOR_DATE=f"@{author} +0000", GIT_COMMITTER_DATE=f"@{committer} +0000")
             subprocess.run([gitfx.REAL_GIT, "-c", "commit.gpgsign=false", "commit", "-q", "--allow-empty", "-m", "second"], cwd=path, env=env, check=True)
             st["repositories"] += 1
             d = datetime.datetime.fromtimestamp(committer, datetime.timezone.utc)
             want = f"{d.year}.{d.month}.{d.day}+{d.hour}.{d.minute}.{d.second}.{d.strftime('%Y%m%d%H%M%S')}"
-            for argv in (["version", "--schema-ron=" + ron], ["version", "--schema-ron=" + ron, "--output-format=zerv"], ["version", "--schema=calver-base"]):
+            # --clean (distance 0, not dirty) and other state overrides leave the commit time alone: the instant behind the patterns stays HEAD's commit time
+            for argv in (["version", "--schema-ron=" + ron], ["version", "--schema-ron=" + ron, "--output-format=zerv"], ["version", "--schema=calver-base"],
+                         ["version", "--schema-ron=" + ron, "--clean"], ["version", "--schema-ron=" + ron, "--clean", "--output-format=zerv"], ["version", "--schema=calver-base", "--clean"],
+                         ["version", "--schema-ron=" + ron, "--distance=0", "--no-dirty"], ["version", "--schema-ron=" + ron, "--distance=7", "--bumped-branch=x"],
+                         ["flow", "--schema-ron=" + ron, "--clean"]):
                 rc, out, err = run_procs([(argv, None)], env={"TZ": rng.choice(["UTC", "Pacific/Kiritimati", "America/Anchorage"]), "GIT_CONFIG_GLOBAL": "/dev/null"}, cwd=path)[0]
                 st["runs"] += 1
                 run.evaluations += 1
@@ -169,6 +173,22 @@ def real_commit_times(run, rng):
                 elif argv[1] == "--schema=calver-base" and not o.startswith(f"{d.year}.{d.month}.{d.day}"):
                     run.add_violation("oracle", {"stream": "real_commits_author_vs_committer_date", "what": "the CalVer preset does not print the UTC date of HEAD's commit time", "described": desc, "output": o, "expected_prefix": f"{d.year}.{d.month}.{d.day}"}, True)
                 run.nontrivial.add(o)
+        # the same through stdin objects: --clean / an explicit --bumped-timestamp on an object whose tag time differs from its commit time
+        z = subprocess.run([ZERV, "version", "--source=none", "--tag-version=1.2.3", "--distance=3", "--bumped-timestamp=1688169600", "--output-format=zerv"], stdin=subprocess.DEVNULL,
+                           capture_output=True).stdout.decode()
+        z = z.replace("last_timestamp: None", "last_timestamp: Some(1500000000)")
+        for argv, ts in ((["version", "--source=stdin", "--schema-ron=" + ron, "--clean"], 1688169600), (["version", "--source=stdin", "--schema-ron=" + ron], 1688169600),
+                         (["version", "--source=stdin", "--schema-ron=" + ron, "--clean", "--bumped-timestamp=1704067200"], 1704067200),
+                         (["version", "--source=stdin", "--schema=calver-base-prerelease-post-dev", "--clean", "--output-format=pep440"], 1688169600)):
+            rc, out, err = run_procs([(argv, z.encode())], env={"TZ": "Pacific/Kiritimati"})[0]
+            st["runs"] += 1
+            run.evaluations += 1
+            d = datetime.datetime.fromtimestamp(ts, datetime.timezone.utc)
+            o = out.decode("utf-8", "replace").strip()
+            want = f"{d.year}.{d.month}.{d.day}+{d.hour}.{d.minute}.{d.second}.{d.strftime('%Y%m%d%H%M%S')}" if "--schema-ron" in argv[2] else f"{d.year}.{d.month}.{d.day}"
+            if rc != 0 or "last_timestamp: Some(1500000000)" not in z or not (o == want if "--schema-ron" in argv[2] else o.startswith(want)):
+                run.add_violation("oracle", {"stream": "real_commits_author_vs_committer_date", "what": "a stdin object with commit time and an older tag time: the pattern fields must be those of the commit time (or of --bumped-timestamp), whatever --clean does",
+                                             "described": {"argv": argv, "object_commit_time": 1688169600, "object_tag_time": 1500000000}, "output": o, "expected": want, "stderr": err.decode("utf-8", "replace")[-300:]}, True)
     finally:
         shutil.rmtree(root, ignore_errors=True)
 
